@@ -831,4 +831,4 @@ pub mod benches {
 
 #[cfg(kani)]
 #[path = "/verif/units/kani/branch_node.rs"]
-mod verif_kani;
+pub(crate) mod verif_kani;
